@@ -22,7 +22,7 @@ import os, time
 # Every scenario gets its own block of ports, taken from one running counter: a service started by `wire start` stays
 # bound for the life of the harness process, so no later scenario may come near its ports. The whole stage stays inside
 # 26000..32700, below the kernel's ephemeral range; the stage's region depends on the process and the time.
-SIZES = {"quick": {"c07": 6 * 12 + 2 * 12 + 2 * 14 + 2 * 8, "c08": 2 * 8, "c15": 32}, "thorough": {"c07": 60 * 12 + 20 * 12 + 20 * 14 + 20 * 8, "c08": 30 * 8, "c15": 4 * 16}}
+SIZES = {"quick": {"c07": 6 * 12 + 2 * 12 + 2 * 14 + 2 * 8, "c08": 2 * 8, "c15": 32, "c12": 2 * 8}, "thorough": {"c07": 60 * 12 + 20 * 12 + 20 * 14 + 20 * 8, "c08": 30 * 8, "c15": 4 * 16, "c12": 6 * 8}}
 _next = [26000, 32700]
 
 def region(tier, focus):
@@ -153,7 +153,7 @@ def gen_c07_outbound(g, lines, k):
     g.count("wire_c07_outbound_%s" % ("rcvd" if rcvd else "norcvd"))
     lines.append("wire end")
 
-def gen_c02_closed(g, lines, k):
+def gen_c02_closed(g, lines, k, idle_ms=0):
     """a request arrives on a TCP connection, the sender closes that connection, then the response comes: the next Via
     entry says TCP, so the response is sent over TCP to that entry's address (received, sent-by port) - on a new
     connection, since the old one is gone. k odd: the connection stays open and carries the response."""
@@ -180,6 +180,10 @@ def gen_c02_closed(g, lines, k):
         lines.append("wire accepted %s 2500 msg=%s # spec=C02 dest T %s # spec=C02 vias %s" % (hx(back), hx(resp), hx(back), hxs([exp_v.text()])))
         g.count("wire_c02_response_after_sender_closed")
     else:
+        if idle_ms:
+            # the backend takes its time (a ringing phone): the answer still returns on the connection the request used
+            lines.append("wire sleep %d" % idle_ms)
+            g.count("wire_c12_slow_answer")
         lines.append("wire udp %s %s %s" % (hx(be), hx("%s:%d" % (lip, P)), hx(resp)))
         lines.append("wire tcprecv 7 1500 msg=%s # spec=C12 dest C 7 # spec=C02 vias %s" % (hx(resp), hxs([exp_v.text()])))
         g.count("wire_c02_response_on_open_connection")
@@ -302,6 +306,10 @@ def generate(seed, tier, focus="c07"):
             if k < (1 if tier == "quick" else 2):
                 gen_c15(g, lines, k)
                 gen_c15_env(g, lines, k)
+            continue
+        if focus == "c12":
+            if k < (2 if tier == "quick" else 6):
+                gen_c02_closed(g, lines, 2 * k + 1, idle_ms=[5600, 0, 7000, 0, 31000, 0][k])
             continue
         if focus == "c08":
             if k < (2 if tier == "quick" else 30):
